@@ -1284,7 +1284,7 @@ write_union_info (const gchar *namespace,
   xml_printf (file, " name=\"%s\"", name);
 
   if (type_name)
-    xml_printf (file, " type-name=\"%s\" get-type=\"%s\"", type_name, type_init);
+    xml_printf (file, " glib:type-name=\"%s\" glib:get-type=\"%s\"", type_name, type_init);
 
   if (deprecated)
     xml_printf (file, " deprecated=\"1\"");
